@@ -288,6 +288,24 @@ func c16DumpRestore(run *core.Run, distinct *core.DistinctSet) {
 			a.Add(conc.Event(e, randContent(r)))
 		}
 		orig, _ := a.Find(matchAll)
+		// the original's own answers (a compound filter first, then its single-condition parts)
+		origListing := conc.Labels(orig)
+		origProbes := [][]abs.Filter{
+			{{Authors: abs.StrSet{P: true, S: []string{"a"}}, Kinds: abs.IntSet{P: true, S: []int64{1}}}},
+			{{Authors: abs.StrSet{P: true, S: []string{"a"}}}},
+			{{Kinds: abs.IntSet{P: true, S: []int64{1}}}},
+			{{Authors: abs.StrSet{P: true, S: []string{"b"}}, Tags: map[string][]string{"t": {"x"}}}},
+			{{Tags: map[string][]string{"t": {"x"}}}},
+		}
+		for _, fs := range origProbes {
+			res, err := a.Find(conc.Filters(fs))
+			if err != nil {
+				break
+			}
+			run.Add("restore_probes", 1)
+			tr.Lines = append(tr.Lines, map[string]any{"op": "find", "S": origListing, "fs": abs.NormFilters(fs), "res": conc.Labels(res),
+				"shape": "cache before dump: find " + describeFilters(fs)})
+		}
 		a.Close()
 		var buf bytes.Buffer
 		if err := h.Dump(&buf); err != nil {
@@ -303,7 +321,7 @@ func c16DumpRestore(run *core.Run, distinct *core.DistinctSet) {
 		listing := conc.Labels(orig)
 		distinct.Add("dump:" + abs.KeyOf(listing))
 		// the restored listing itself, then probes
-		probes := [][]abs.Filter{{{}}}
+		probes := append([][]abs.Filter{{{}}}, origProbes...)
 		for j := 0; j < 5; j++ {
 			probes = append(probes, g.Filters())
 		}
